@@ -32,6 +32,14 @@ fn guarded_create<const IS_CREATE2: bool, WIRE: InterpreterTypes, H: Host + ?Siz
         return Err(InstructionResult::NotActivated)
     }
 
+    // Init code runs in the context of the account being created (a create frame has no bytecode
+    // address). That account cannot carry a delegation - its code is unset until the create
+    // completes - and must not be loaded here: on Prague the load attaches an empty code object to
+    // it, which a reverted create frame does not take back.
+    if context.interpreter.input.bytecode_address().is_none() {
+        return contract::create::<IS_CREATE2, WIRE, H>(context)
+    }
+
     // `target_address` is the account owning this execution context. For a 7702 call it remains
     // the delegated EOA even though the interpreter executes bytecode loaded from its delegate.
     let recipient = context.interpreter.input.target_address();
